@@ -433,4 +433,186 @@ theorem spellings_example :
     getterFinds ['B', '0', '2'] = some true := by
   decide +kernel
 
+/-! ## Lookup paths: every family of cell-name APIs, every accepted spelling
+
+`XlModel.RefApi` transcribes what each family of APIs does with the caller's
+spelling before touching the worksheet: P `prepareCell` (all setters), G
+`getCellStringFunc` (GetCellValue/Formula/Type), D direct decode (GetCellStyle,
+SetCellStyle, AddPicture/GetPictures, form controls), R `GetCellRichText`,
+H-set / H-get (hyperlinks, behind a `SplitCellName` gate), C-add / C-del (comments). -/
+
+/-- **full strength, six paths**: every accepted spelling is mapped by every path to
+the canonical key of the cell it denotes — the grid position `(c, r)` or the
+canonical relative reference of `(c, r)`. -/
+theorem paths_canonical (s : List Char) (ci ri : Int) (h : cellNameToCoordinates s = .ok (ci, ri)) :
+    ∃ canon, coordinatesToCellName ci ri false = .ok canon ∧
+      pathPrepare s = some (.xy ci ri) ∧ pathGetString s = some (.ref canon) ∧
+      pathDirect s = some (.xy ci ri) ∧ pathRichGet s = some (.xy ci ri) ∧
+      pathLinkSet s = some (.ref canon) ∧ pathLinkGet s = some (.ref canon) := by
+  obtain ⟨_, _, _, _, canon, hcanon, hdec⟩ := cell_decode_encode s ci ri h
+  have hu := upper_same_cell s ci ri h
+  obtain ⟨q, hq⟩ := split_ok_of_decode h
+  have hm : mergeParse s = some canon := by
+    unfold mergeParse apiRef getterRef setterRef
+    simp only [hu, hcanon]
+  refine ⟨canon, hcanon, ?_, ?_, ?_, ?_, ?_, ?_⟩
+  · unfold pathPrepare; simp only [hm, hdec]
+  · unfold pathGetString; simp only [hm, hdec, hcanon]
+  · unfold pathDirect; simp only [h]
+  · unfold pathRichGet pathPrepare; simp only [hm, hdec]
+  · unfold pathLinkSet; simp only [hq, hm]
+  · unfold pathLinkGet; simp only [hq, h, hcanon]
+
+/-- **strictness per path**: each of the paths (and the validity check of `AddComment`)
+accepts a string iff it is a strict A1 reference inside the grid — no path widens
+acceptance by its normalisation (upper-casing, `SplitCellName` gate), none narrows it. -/
+theorem paths_accept_iff_a1 (s : List Char) :
+    ((pathPrepare s).isSome = true ↔ ∃ c r, parseA1 s = some (c, r)) ∧
+    ((pathGetString s).isSome = true ↔ ∃ c r, parseA1 s = some (c, r)) ∧
+    ((pathDirect s).isSome = true ↔ ∃ c r, parseA1 s = some (c, r)) ∧
+    ((pathRichGet s).isSome = true ↔ ∃ c r, parseA1 s = some (c, r)) ∧
+    ((pathLinkSet s).isSome = true ↔ ∃ c r, parseA1 s = some (c, r)) ∧
+    ((pathLinkGet s).isSome = true ↔ ∃ c r, parseA1 s = some (c, r)) ∧
+    ((pathCommentAdd s).isSome = true ↔ ∃ c r, parseA1 s = some (c, r)) := by
+  have back : (∃ c r, parseA1 s = some (c, r)) → ∃ ci ri, cellNameToCoordinates s = .ok (ci, ri) := by
+    rintro ⟨c, r, hp⟩; exact ⟨_, _, spec_sound s c r hp⟩
+  have viaMerge : ∀ {canon}, mergeParse s = some canon → ∃ c r, parseA1 s = some (c, r) := by
+    intro canon hm
+    exact (api_accepts_iff_a1 s).mp (by unfold mergeParse at hm; rw [hm]; rfl)
+  have viaDirect : ∀ {ci ri}, cellNameToCoordinates s = .ok (ci, ri) → ∃ c r, parseA1 s = some (c, r) := by
+    intro ci ri hd
+    obtain ⟨cn, rn, hp, _, _⟩ := rejects_non_a1 s ci ri hd
+    exact ⟨cn, rn, hp⟩
+  refine ⟨⟨?_, ?_⟩, ⟨?_, ?_⟩, ⟨?_, ?_⟩, ⟨?_, ?_⟩, ⟨?_, ?_⟩, ⟨?_, ?_⟩, ⟨?_, ?_⟩⟩
+  · intro h; unfold pathPrepare at h
+    split at h
+    · rename_i canon hm; exact viaMerge hm
+    · simp at h
+  · intro hp; obtain ⟨ci, ri, hd⟩ := back hp
+    obtain ⟨_, _, h1, _⟩ := paths_canonical s ci ri hd; simp [h1]
+  · intro h; unfold pathGetString at h
+    split at h
+    · rename_i canon hm; exact viaMerge hm
+    · simp at h
+  · intro hp; obtain ⟨ci, ri, hd⟩ := back hp
+    obtain ⟨_, _, _, h1, _⟩ := paths_canonical s ci ri hd; simp [h1]
+  · intro h; unfold pathDirect at h
+    split at h
+    · rename_i c r hd; exact viaDirect hd
+    · simp at h
+  · intro hp; obtain ⟨ci, ri, hd⟩ := back hp
+    obtain ⟨_, _, _, _, h1, _⟩ := paths_canonical s ci ri hd; simp [h1]
+  · intro h; unfold pathRichGet pathPrepare at h
+    split at h
+    · rename_i canon hm; exact viaMerge hm
+    · simp at h
+  · intro hp; obtain ⟨ci, ri, hd⟩ := back hp
+    obtain ⟨_, _, _, _, _, h1, _⟩ := paths_canonical s ci ri hd; simp [h1]
+  · intro h; unfold pathLinkSet at h
+    split at h
+    · simp at h
+    · split at h
+      · rename_i canon hm; exact viaMerge hm
+      · simp at h
+  · intro hp; obtain ⟨ci, ri, hd⟩ := back hp
+    obtain ⟨_, _, _, _, _, _, h1, _⟩ := paths_canonical s ci ri hd; simp [h1]
+  · intro h; unfold pathLinkGet at h
+    split at h
+    · simp at h
+    · split at h
+      · rename_i c r hd; exact viaDirect hd
+      · simp at h
+  · intro hp; obtain ⟨ci, ri, hd⟩ := back hp
+    obtain ⟨_, _, _, _, _, _, _, h1⟩ := paths_canonical s ci ri hd; simp [h1]
+  · intro h; unfold pathCommentAdd at h
+    split at h
+    · rename_i p hd; exact viaDirect (ci := p.1) (ri := p.2) hd
+    · simp at h
+  · intro hp; obtain ⟨ci, ri, hd⟩ := back hp
+    unfold pathCommentAdd; simp [hd]
+
+/-- **paired setters and getters, five families**: for any two accepted spellings
+`s`, `t` of one cell, what a writer called with `s` stored is found by the matching
+reader called with `t` — value/int/formula/type (P/G), style and pictures (D/D),
+rich text (P/R), hyperlinks (H-set/H-get), and across families (P/D). -/
+theorem pairs_find (s t : List Char) (ci ri : Int)
+    (hs : cellNameToCoordinates s = .ok (ci, ri)) (ht : cellNameToCoordinates t = .ok (ci, ri)) :
+    pairFinds pathPrepare pathGetString s t = some true ∧
+    pairFinds pathDirect pathDirect s t = some true ∧
+    pairFinds pathPrepare pathRichGet s t = some true ∧
+    pairFinds pathLinkSet pathLinkGet s t = some true ∧
+    pairFinds pathPrepare pathDirect s t = some true := by
+  obtain ⟨canon, hc, a1, a2, a3, a4, a5, a6⟩ := paths_canonical s ci ri hs
+  obtain ⟨canon', hc', b1, b2, b3, b4, b5, b6⟩ := paths_canonical t ci ri ht
+  rw [hc] at hc'
+  cases hc'
+  unfold pairFinds
+  simp only [a1, a2, a3, a4, a5, a6, b1, b2, b3, b4, b5, b6, Key.stored, hc]
+  simp
+
+/-- comments, what is true (`…_partial`: the missing hypothesis is `s = t`, the two
+calls must use the *same spelling*): `DeleteComment(t)` finds the comment
+`AddComment(Cell: s)` stored iff `s` is accepted and `t` is literally `s`. -/
+theorem comment_pair_partial (s t : List Char) :
+    pairFinds pathCommentAdd pathCommentDel s t = some true ↔
+      (∃ ci ri, cellNameToCoordinates s = .ok (ci, ri)) ∧ s = t := by
+  unfold pairFinds pathCommentAdd pathCommentDel
+  cases hd : cellNameToCoordinates s with
+  | error e => simp
+  | ok p =>
+    simp only [Key.stored, Option.some.injEq, beq_iff_eq]
+    constructor
+    · intro h; exact ⟨⟨p.1, p.2, rfl⟩, h⟩
+    · intro h; exact h.2
+
+/-- **finding (open)**: comments are keyed by the raw spelling. `AddComment` with
+`Cell: "b2"` stores `Ref="b2"`; `DeleteComment(sheet, "B2")` — another accepted
+spelling of the same cell — compares `cmt.Ref != cell` as strings, does not find
+it and returns nil (and removes the VML shape by coordinates, leaving the comment
+without its shape); `GetComments` reports `Cell: "b2"`. Oracle signature
+`spell:comment-raw-ref`. -/
+theorem finding_comment_raw_ref :
+    cellNameToCoordinates ['b', '2'] = .ok (2, 2) ∧ cellNameToCoordinates ['B', '2'] = .ok (2, 2) ∧
+    pairFinds pathCommentAdd pathCommentDel ['b', '2'] ['B', '2'] = some false ∧
+    pairFinds pathCommentAdd pathCommentDel ['$', 'C', '$', '3'] ['C', '3'] = some false := by
+  refine ⟨by decide +kernel, by decide +kernel, by decide +kernel, by decide +kernel⟩
+
+/-! ## Cell-name APIs that decode through the range decoder (MergeCell, UnmergeCell) -/
+
+/-- what is true (`…_partial`: the missing hypothesis is that both arguments are A1
+references): `MergeCell(sheet, a, b)` with two strict A1 spellings stores a range
+reference that decodes to the sorted rectangle of the two denoted cells. -/
+theorem mergecell_strict_partial (a b : List Char) (c1 r1 c2 r2 : Nat)
+    (ha : parseA1 a = some (c1, r1)) (hb : parseA1 b = some (c2, r2)) :
+    ∃ ref, mergeCellRef a b = some ref ∧
+      rangeRefToCoordinates ref =
+        .ok (sortCoordinates ((c1 : Int), (r1 : Int), (c2 : Int), (r2 : Int))) := by
+  have hA := shape_of_parseA1 ha
+  have hB := shape_of_parseA1 hb
+  have hdec : rangeRefToCoordinates (a ++ [':'] ++ b) =
+      .ok ((c1 : Int), (r1 : Int), (c2 : Int), (r2 : Int)) :=
+    (rangeRef_ok_iff _ _ _ _ _).mpr ⟨c1, r1, c2, r2, rfl, rfl, rfl, rfl,
+      rangeLoose_of_strict ⟨a, b, by simp, hA, hB⟩⟩
+  obtain ⟨_, _, _, _, _, _, _, _, _, _, _, _, a1, a2, _, a3, a4⟩ := hA
+  obtain ⟨_, _, _, _, _, _, _, _, _, _, _, _, b1, b2, _, b3, b4⟩ := hB
+  obtain ⟨x, y, z, w, hsort, hx, hy, hz, hw, _⟩ :=
+    sort_in_grid c1 r1 c2 r2 Facts.MaxColumns Facts.TotalRows ⟨a1, a2⟩ ⟨a3, a4⟩ ⟨b1, b2⟩ ⟨b3, b4⟩
+  obtain ⟨ref, henc, hback⟩ := range_encode_decode x y z w false hx hy hz hw
+  refine ⟨ref, ?_, by rw [hsort]; exact hback⟩
+  unfold mergeCellRef
+  simp only [hdec, hsort, henc]
+
+/-- **finding (open)**: `MergeCell` / `UnmergeCell` take two *cell names* but decode
+`a + ":" + b` with the lenient range decoder: a range passed as the first cell name
+is accepted and the second argument silently ignored (`MergeCell(s, "D1:E2", "F9")`
+merges D1:E2), and `$` is accepted anywhere (`MergeCell(s, "A$$1", "B2")` merges
+A1:B2) — strings that are not A1 references are mapped to coordinates. Oracle
+signatures `rngapi:accept-non-a1:extra-colon-part`, `rngapi:accept-non-a1:stray-dollar`. -/
+theorem finding_mergecell_accepts_non_a1 :
+    (mergeCellRef ['D', '1', ':', 'E', '2'] ['F', '9'] = some ['D', '1', ':', 'E', '2'] ∧
+      parseA1 ['D', '1', ':', 'E', '2'] = none) ∧
+    (mergeCellRef ['A', '$', '$', '1'] ['B', '2'] = some ['A', '1', ':', 'B', '2'] ∧
+      parseA1 ['A', '$', '$', '1'] = none) := by
+  refine ⟨⟨by decide +kernel, by decide +kernel⟩, ⟨by decide +kernel, by decide +kernel⟩⟩
+
 end XlModel.Props.C20
